@@ -6,7 +6,7 @@ from . import common
 
 NAME = "U-macro"
 TOOL = "verus"
-PROPS = ["C08", "C16"]
+PROPS = ["C08", "C16", "C07"]
 RLIMIT = 100
 TRUSTED = ["verus 0.2026.09.13 + z3", "A-vstd (for-loops over &Vec / slice iterators with break, String ==)"]
 
@@ -52,6 +52,7 @@ pub struct Context {
     pub defs_ex: Vec<Vec<String>>,
     pub defs_ex_ex: Vec<Vec<String>>,
     pub regexes: Vec<Vec<(Regex, String)>>,
+    pub flat: Ghost<Seq<Seq<char>>>,        // the names entered in the flat map `defs`, which #ifdef / #ifndef / redefinition / #undef consult (get_macro)
 }
 pub open spec fn in_step(c: Context, k: int) -> bool {
     c.regex_sets@[k].pats@ == c.defs_ex_ex@[k]@ && c.defs_ex@[k]@.len() == c.defs_ex_ex@[k]@.len() && c.regexes@[k]@.len() == c.defs_ex@[k]@.len()
@@ -73,9 +74,10 @@ pub open spec fn appended(c0: Context, c1: Context, name: String, pattern: Seq<c
 }
 %(fmt)s
 impl Context {
-    // R6: the flat name -> body map `defs` (BTreeMap) is not part of this contract
+    // R6: the flat name -> body map `defs` (BTreeMap): only which names were entered is tracked
     #[verifier::external_body] pub fn defs_insert(&mut self, k: String, v: String)
         ensures final(self).regex_sets == old(self).regex_sets, final(self).defs_ex == old(self).defs_ex, final(self).defs_ex_ex == old(self).defs_ex_ex, final(self).regexes == old(self).regexes,
+            final(self).flat@ == old(self).flat@.push(k@),
     { unimplemented!() }
 %(fns)s
 }
@@ -93,19 +95,21 @@ def build_define(f, cuts):
         requires wf(*old(self)),
         ensures wf(*final(self)), //@ C08:define-keeps-regex-sets-in-step
             appended(*old(self), *final(self), name, "\\\\b"@ + name@ + "\\\\b"@, value), //@ C08:define-appends-the-macro
+            final(self).flat@ == old(self).flat@.push(name@), //@ C07,C08:define-records-the-name-for-ifdef
 """),
         ("define_ex", "pub fn define_ex<N: Into<String>>(&mut self, name: N, value: (String, String)) -> &mut Self",
          """pub fn define_ex(&mut self, name: String, value: (String, String))
         requires wf(*old(self)),
         ensures wf(*final(self)), //@ C08:define-ex-keeps-regex-sets-in-step
             appended(*old(self), *final(self), name, value.0@, value.1), //@ C08:define-ex-appends-the-macro
+            final(self).flat@ == old(self).flat@.push(name@), //@ C07,C08:define-ex-records-the-name-for-ifdef
 """)):
         c = f.fn(name, within="Context")
         cuts.append(c)
         c.sub(r"let n = name\.into\(\);", "let n = name;", "R3 Into<String> at a String argument is the identity", expect=1)
         c.sub(r"let v = value\.into\(\);", "let v = value;", "R3 Into<String> at a String argument is the identity", expect=(0, 1))
         c.sub(r"\n\s*self\s*\n(\s*\})\s*\Z", r"\n\1", "R28 builder-style result `self` (&mut Self) dropped: the function is used for its effect", expect=1, flags=0)
-        c.sub(r"self\.defs\.insert\(", "self.defs_insert(", "R6 BTreeMap insert -> stub outside the contract", expect=1)
+        c.sub(r"self\.defs\.insert\(", "self.defs_insert(", "R6 BTreeMap insert -> stub recording the name", expect=(0, 1))
         c.sub(r"\b(n|v|value\.0|value\.1)\.clone\(\)", r"string_clone(&\1)", "R11 String::clone -> shim", expect=(0, 6))
         c.sub(r"Regex::new\(&(\w+(?:\.\d)?)\)", r"Regex::new(\1.as_str())", "R3 explicit &String -> &str", expect=1)
         c.sub(r"self\.(defs_ex|defs_ex_ex|regexes)\.last_mut\(\)\.unwrap\(\)\.push\(([^;]*)\);", r"{ let mut __c = self.\1.pop().unwrap(); __c.push(\2); self.\1.push(__c); }",
